@@ -6,7 +6,7 @@ CONSTANTS
   Types = {"i", "f"}
   Hints = {"U", "G"}
   Cvs = {1, 2}
-  EditKinds = {"inc", "mat", "drop", "cv", "stale", "ty"}
+  EditKinds = {"inc", "dec", "mat", "drop", "incz", "decz", "cv", "stale"}
   MaxEdits = 2
   TwoFrom = 3
   MaxApp = 3
